@@ -17,20 +17,34 @@ exit 2 = trouble in the machinery itself (never reported as a violation).
 import json, os, subprocess, sys, time, glob, re
 
 ROOT = os.path.dirname(os.path.abspath(__file__))
-B = os.path.join(ROOT, "build")
+REPO = os.environ.get("VERIF_REPO", "/repo")
+BUILD_ROOT = os.path.join(ROOT, "build")
+
+
+def header_hash():
+    import hashlib
+    h = hashlib.sha256()
+    for f in ("SplineTrajectory.hpp", "SplineOptimizer.hpp"):
+        h.update(open(os.path.join(REPO, "include", f), "rb").read())
+    return h.hexdigest()[:16]
+
+
+# Build output is keyed by the content of the two library headers: every check rebuilds from /repo's current
+# working tree, and going back to a tree that was built before (apply a change, check, undo) costs nothing.
+B = os.path.join(BUILD_ROOT, "cache", header_hash())
 
 # runs per (variant) and tier; measured throughput is recorded in the evidence
 CFG = {
     #        quick                                        thorough
     "C03": ({"plain": 300000, "asan": 30000},             {"plain": 12000000, "asan": 1000000}),
     "C05": ({"plain": 60000, "asan": 8000},               {"plain": 2500000, "asan": 250000}),
-    "C07": ({"plain": 20000, "asan": 2000},               {"plain": 800000, "asan": 60000}),
-    "C08": ({"plain": 100000, "asan": 10000},             {"plain": 4000000, "asan": 300000}),
+    "C07": ({"plain": 20000, "asan": 2000, "tsan": 600},  {"plain": 800000, "asan": 60000, "tsan": 20000}),
+    "C08": ({"plain": 100000, "asan": 10000, "tsan": 3000}, {"plain": 4000000, "asan": 300000, "tsan": 100000}),
     "C09": ({"plain": 300000, "asan": 30000},             {"plain": 10000000, "asan": 1000000}),
     "C10": ({"plain": 200000, "asan": 20000},             {"plain": 8000000, "asan": 600000}),
     "C11": ({"plain": 400000, "asan": 40000},             {"plain": 15000000, "asan": 1200000}),
     "C12": ({"plain": 100000, "tsan": 6000, "asan": 8000}, {"plain": 4000000, "tsan": 250000, "asan": 300000}),
-    "C15": ({"plain": 60000, "asan": 15000},              {"plain": 2500000, "asan": 500000}),
+    "C15": ({"plain": 60000, "asan": 15000, "tsan": 3000}, {"plain": 2500000, "asan": 500000, "tsan": 100000}),
     "C16": ({"plain": 300000, "asan": 30000},             {"plain": 10000000, "asan": 1000000}),
     "C19": ({"plain": 20000, "asan": 2000},               {"plain": 800000, "asan": 60000}),
 }
@@ -63,9 +77,24 @@ def sh(cmd, **kw):
     return subprocess.run(cmd, shell=isinstance(cmd, str), **kw)
 
 
+def prune_caches(keep=3):
+    root = os.path.join(BUILD_ROOT, "cache")
+    try:
+        dirs = sorted((os.path.join(root, d) for d in os.listdir(root)), key=os.path.getmtime, reverse=True)
+    except OSError:
+        return
+    import shutil
+    for d in dirs[keep:]:
+        if os.path.abspath(d) != os.path.abspath(B):
+            shutil.rmtree(d, ignore_errors=True)
+
+
 def build(variants):
     t0 = time.time()
-    r = sh(["make", "-C", ROOT, "-j16"] + sorted(variants), stdout=subprocess.PIPE, stderr=subprocess.STDOUT, text=True)
+    os.makedirs(B, exist_ok=True)
+    os.utime(B, None)
+    prune_caches()
+    r = sh(["make", "-C", ROOT, "-j16", f"REPO={REPO}", f"B={B}"] + sorted(variants), stdout=subprocess.PIPE, stderr=subprocess.STDOUT, text=True)
     if r.returncode != 0:
         sys.stdout.write(r.stdout[-6000:])
         print("check.py: build failed (the tree under /repo does not compile with the harness)")
@@ -131,6 +160,10 @@ def main():
     if not args:
         print(__doc__)
         return 2
+    if args[0] == "build":
+        build_s = build({"plain", "asan", "tsan"})
+        print(f"check.py: simulator built for header content {header_hash()} in {build_s:.0f}s -> {B}")
+        return 0
     if args[0] == "replay":
         path = args[1]
         text = open(path).read()
@@ -281,9 +314,11 @@ def main():
 
     for k, v in known_hits:
         print(f"KNOWN-FINDING: property={prop} {k['text']} (seen: {v['class']} replay={v['replay']})")
-    for v in violations:
+    for v in violations[:12]:
         print(f"VIOLATION property={prop} replay={v['replay']}")
         print(f"  class={v['class']} variant={v['variant']} universe={v.get('universe')} seed={v.get('seed')} {v.get('msg', '')[:400]}")
+    if len(violations) > 12:
+        print(f"  ... and {len(violations) - 12} more reproduced violation(s); all replay files are under {os.path.join(ROOT, 'replays')}")
     for h in harness:
         print(f"HARNESS: {h}")
     print(f"check {prop} [{tier}]: {int(evaluations)} runs in {run_s:.1f}s (+{build_s:.0f}s build), {int(tot('distinct_nontrivial'))} distinct non-trivial, "
